@@ -582,6 +582,10 @@ func (s *BaseNodeService) reinitDKG(message storage.Message) error {
 		return fmt.Errorf("failed to umarshal request:  %w", err)
 	}
 
+	if strings.TrimSpace(req.DKGID) == "" {
+		return errors.New("reinit message has no dkg_id")
+	}
+
 	roundExist, existErr := s.fsmService.IsExist(req.DKGID)
 	if existErr != nil {
 		return existErr
@@ -634,9 +638,6 @@ func (s *BaseNodeService) reinitDKG(message storage.Message) error {
 	if err != nil {
 		return fmt.Errorf("failed to calculat reinitDKG message hash: %w", err)
 	}
-	if err := s.opService.PutOperation(operation); err != nil {
-		return fmt.Errorf("failed to PutOperation: %w", err)
-	}
 
 	// save new comm keys into FSM to verify future messages
 	fsmInstance, err := s.fsmService.GetFSMInstance(req.DKGID, true)
@@ -649,6 +650,11 @@ func (s *BaseNodeService) reinitDKG(message storage.Message) error {
 	fsmDump, err := fsmInstance.Dump()
 	if err != nil {
 		return fmt.Errorf("failed to get FSM dump")
+	}
+
+	// the operation is stored only when nothing in the message can make the reinit fail any more
+	if err := s.opService.PutOperation(operation); err != nil {
+		return fmt.Errorf("failed to PutOperation: %w", err)
 	}
 
 	if err := s.fsmService.SaveFSM(message.DkgRoundID, fsmDump); err != nil {
